@@ -1,7 +1,153 @@
-import CalicoVerif.Model.C11Ref
+import CalicoVerif.Proofs.C11Asm
+import CalicoVerif.Proofs.C11Split
+import CalicoVerif.Proofs.C11Eval
 /-!
 C11 — BPF policy programs reach the same verdict as the policy semantics.
+
+Staged as DESIGN §6 says.  What is proved here (all for EVERY input of the
+stated shape, no sampling):
+
+* `assemble_sound_all` — the assembler model (`asm.Block`: dead-code dropping,
+  eager forward label resolution, int16 range check) preserves the label-level
+  semantics of ANY event list: running the assembled instructions with the
+  instruction-level interpreter equals the label-level run.
+* `expand_noSplit_all` — without `WithPolicyMapIndexAndStride` and below the
+  trampoline stride, the builder produces ONE block containing exactly its plain
+  events (no split, no trampolines).
+* `tiers_verdict_partial`, `profiles_verdict_partial` — the compositional proof
+  rule → policy → tier (and → profiles): the events `writeTiers`/`writeProfiles`
+  emit, run from any state satisfying the builder's register invariant, continue
+  at the allow label / the deny label / fall through exactly as the REFERENCE
+  (`evalTiers`, `evalProfiles`) says — for every tier/policy/profile layout, all
+  rule ids, both destination legs, actions allow/deny/pass/next-tier.
+
+`_partial` because: (1) the per-rule match fragments enter through the
+hypothesis `RuleGuarded` (each fragment is a guard for the reference
+`ruleMatch`), discharged here only for rules without criteria (end-of-tier
+rule); (2) `log` actions and flow-log rule-hit recording (`record`) are
+excluded; (3) header/footer/host-flag straight-line code, program splitting and
+IPv6 are not yet covered by theorems (they ARE covered by the instruction-exact
+tie and by the interpreter-vs-reference oracle on every generated packet).
+
+Two places where the full statement is FALSE of the current code are recorded
+with witnesses: `profile_log_panics` and `proto_name_mismatch`.
 -/
 namespace CalicoVerif.C11
+
+/-- Assembler soundness, for all event lists and machine states. -/
+theorem assemble_sound_all (env : Env) (evs : List Ev) (prog : List Insn) (m : Mach)
+    (ha : assemble evs = some prog) (hnf : (lrun env evs m).isFault = false) :
+    execL env prog m = lrun env evs m :=
+  assemble_sound env evs prog m ha hnf
+
+-- non-vacuity: a two-instruction program with a forward jump over dead code assembles and runs
+example : assemble [jump .exit, movImm64 R0 7, .label .exit, movImm64 R0 2, exitI] =
+    some [⟨opJumpA, 0, 0, 0, 0⟩, ⟨opMovImm64, 0, 0, 0, 2⟩, ⟨opExit, 0, 0, 0, 0⟩] := by decide
+
+/-- No splitting, no trampolines: one block with exactly the plain events. -/
+theorem expand_noSplit_all (c : Cfg) (xdp : Bool) (bevs : List BEv) (h : c.policyMapStride = 0)
+    (hlen : (flat bevs).length < c.trampolineStride) : expand c xdp bevs = [flat bevs] :=
+  expand_noSplit c xdp bevs h hlen
+
+/-- Every rule of the tiers has a plain action and a guarded match part. -/
+def TiersPlain (env : Env) (st : List Byte) (p : Pkt) (ts : List Tier) : Prop :=
+  ∀ t ∈ ts, ∀ pol ∈ t.policies, ∀ r ∈ pol.rules, r.plainAction = true ∧ RuleGuarded env st p r
+
+def ProfilesPlain (env : Env) (st : List Byte) (p : Pkt) (ps : List Policy) : Prop :=
+  ∀ pol ∈ ps, ∀ r ∈ pol.rules, r.plainAction = true ∧ RuleGuarded env st p r
+
+/-- The two allow labels the builder uses. -/
+def isAllowLabel (l : Label) : Prop := l = .allow ∨ l = .allowedByHostPolicy
+
+theorem tierLabel_props {al : Label} (hal : isAllowLabel al) (tid : Nat) (r : Rule) (h : r.plainAction = true) :
+    tierActionLabel al tid r.action ≠ .log ∧ (tierActionLabel al tid r.action).isRule = false := by
+  rw [tierActionLabel_actOf]
+  unfold Rule.plainAction at h
+  rcases hal with rfl | rfl <;> cases ha : actOf r.action <;> simp [ha, Label.isRule] at h ⊢
+
+theorem profileLabel_props {al : Label} (hal : isAllowLabel al) (r : Rule) (h : r.plainAction = true) :
+    profileActionLabel al r.action ≠ .log ∧ (profileActionLabel al r.action).isRule = false := by
+  unfold Rule.plainAction at h
+  have hl : actOf r.action ≠ .log := by intro e; simp [e] at h
+  rw [profileActionLabel_actOf al r.action hl]
+  rcases hal with rfl | rfl <;> cases ha : actOf r.action <;> simp [ha, Label.isRule] at h ⊢
+
+/-- **rule → policy → tier.**  The events of `writeTiers`, from any state
+satisfying the builder's invariant, continue at the allow label, at `deny`, or
+fall through, exactly as the reference `evalTiers` decides. -/
+theorem tiers_verdict_partial (env : Env) (st : List Byte) (p : Pkt) (leg : Leg) (al : Label)
+    (ts : List Tier) (rid tid : Nat)
+    (hrec : env.c.record = false) (hal : isAllowLabel al) (hts : TiersPlain env st p ts) :
+    Decides env st (flat (writeTiers env.c leg al ts rid tid).1) (tiersDec al (evalTiers env p leg ts)) := by
+  have hr : al.isRule = false := by rcases hal with rfl | rfl <;> rfl
+  have ht : al.isTierEnd = false := by rcases hal with rfl | rfl <;> rfl
+  have hok : TiersOK env st p al ts := by
+    intro t htm tid' pol hp r hr'
+    obtain ⟨h1, h2⟩ := hts t htm pol hp r hr'
+    obtain ⟨a, b⟩ := tierLabel_props hal tid' r h1
+    exact ⟨a, b, h2⟩
+  have := (writeTiers_decides (env := env) (st := st) (p := p) leg al hrec hr ht ts rid tid hok).1
+  rw [tiersTarget_eval env p leg al ht ts tid (fun t htm pol hp r hr' => (hts t htm pol hp r hr').1)] at this
+  exact this
+
+/-- **profiles.**  The events of `writeProfiles` continue at the allow label or
+at `deny` as the reference `evalProfiles` (with `pass` ⇒ deny) decides; they
+never fall through. -/
+theorem profiles_verdict_partial (env : Env) (st : List Byte) (p : Pkt) (al : Label)
+    (ps : List Policy) (noMatchID rid : Nat)
+    (hrec : env.c.record = false) (hal : isAllowLabel al) (hps : ProfilesPlain env st p ps) :
+    Decides env st (flat (writeProfiles env.c al ps noMatchID rid).1) (profDec al (evalProfiles true env p ps)) := by
+  have hok : PoliciesOK env st p (profileActionLabel al) ps := by
+    intro pol hp r hr'
+    obtain ⟨h1, h2⟩ := hps pol hp r hr'
+    obtain ⟨a, b⟩ := profileLabel_props hal r h1
+    exact ⟨a, b, h2⟩
+  have hP := writePolicies_decides (env := env) (st := st) (p := p) (profileActionLabel al) .dest hrec ps rid hok
+  have hE := writeRule_decides (env := env) (st := st) (p := p)
+    (writePolicies env.c (profileActionLabel al) .dest ps rid).2
+    { action := "", matchID := noMatchID } .deny .dest hrec (by simp) rfl (emptyRule_guarded env st p noMatchID)
+  have hElab := writeRule_labels (env := env) (st := st) (p := p)
+    (writePolicies env.c (profileActionLabel al) .dest ps rid).2
+    { action := "", matchID := noMatchID } .deny .dest hrec (by simp) (emptyRule_guarded env st p noMatchID)
+  have hEt : ruleTarget env p .dest { action := "", matchID := noMatchID } .deny = some .deny := by
+    simp [ruleTarget, filterRule, filterNets, ruleMatch, icmpIs]
+  rw [hEt] at hE
+  have := Decides.seq hP.1 hE (by
+    intro l hl hmem
+    have hr := hElab l hmem
+    have := policiesTarget_not_rule (env := env) (p := p) (leg := .dest) ps
+      (fun pol hp r hr' => (hok pol hp r hr').2.1) l hl
+    rw [this] at hr; cases hr)
+  rw [profilesTarget_eval env p al ps (fun pol hp r hr' => (hps pol hp r hr').1)] at this
+  simpa only [writeProfiles, flat_append] using this
+
+-- non-vacuity of the hypotheses: a tier whose only policy has no rules (so the end-of-tier rule decides)
+example (env : Env) (st : List Byte) (p : Pkt) :
+    TiersPlain env st p [{ endAction := .pass, endRuleID := 1, policies := [⟨[]⟩] }] := by
+  intro t ht pol hp r hr
+  simp at ht; subst ht
+  simp at hp; subst hp
+  simp at hr
+
+/-! ### Where the full statement is false of the current code -/
+
+/-- `compile_total` is false: a PROFILE rule with action `log` (valid in the
+Calico API) makes `Builder.Instructions` panic (`writeProfile`'s action-label map
+has no "log" entry ⇒ empty label ⇒ `log.Panic("empty action label")`). -/
+theorem profile_log_panics :
+    instructions {} { profiles := [⟨[{ action := "log" }]⟩] } = none := by decide
+
+/-- A tier policy with the same rule compiles. -/
+example : (instructions {} { tiers := [{ endAction := .deny, endRuleID := 0, policies := [⟨[{ action := "log" }]⟩] }] }).isSome = true := by
+  decide
+
+/-- `polprog_verdict` is false for the protocol NAMES `icmpv6` and `udplite`
+(valid in the Calico API, passed through by the calculation graph):
+`protocolToNumber` knows only tcp/udp/icmp/sctp and compiles every other name to
+protocol number 0, so `protocol: ICMPv6` matches IP protocol 0 instead of 58. -/
+theorem proto_name_mismatch :
+    protocolToNumber (.name "icmpv6") = 0 ∧ protoNumberRef (.name "icmpv6") = some 58 ∧
+    protocolToNumber (.name "udplite") = 0 ∧ protoNumberRef (.name "udplite") = some 136 := by
+  decide
 
 end CalicoVerif.C11
